@@ -448,7 +448,7 @@ fn run_shard(p: &dyn Prop, env: &Env, shard: usize, nshards: usize, started: Arc
             let mut tests = 0u32;
             let minimal = shrink_bytes(&bytes, &mut |b: &[u8]| {
                 tests += 1;
-                if tests > 4000 || budget.elapsed().as_secs() > 25 {
+                if tests > 2500 || budget.elapsed().as_secs() > 12 {
                     return false;
                 }
                 mark(&started);
